@@ -690,6 +690,11 @@ class Canon:
             return ("cmp", "is", a, b)
         if op == "IsNot":
             return ("cmp", "isnot", a, b)
+        if op in ("In", "NotIn") and isinstance(b, tuple) and b and b[0] in ("list", "tuple", "set") and len(b) == 2 and 0 < len(b[1]) <= 8 \
+                and all(isinstance(x, tuple) and x and x[0] == "k" for x in b[1]):
+            # membership in a literal of constants is the disjunction of the equalities ('x not in (a, b)' = 'x != a and x != b')
+            eqs = [mk_eq(a, x) for x in b[1]]
+            return mk_or(eqs) if op == "In" else mk_and([mk_not(q) for q in eqs])
         if op == "In":
             return ("cmp", "in", a, b)
         if op == "NotIn":
@@ -724,6 +729,9 @@ class Canon:
         # range(0, n) == range(n)
         if fn == ("g", "range") and len(args) == 2 and args[0] == k_num(0):
             args = [args[1]]
+        # d.get(k, default) == d[k] if k in d else default
+        if isinstance(fn, tuple) and len(fn) == 3 and fn[0] == "a" and fn[2] == "get" and len(args) == 2 and not kwargs:
+            return mk_ite(("cmp", "in", args[0], fn[1]), ("s", fn[1], args[0]), args[1])
         if fn == ("g", "float") and len(args) == 1 and is_num(args[0]):
             return args[0]
         return mk_call(fn, args, kwargs)
@@ -1539,13 +1547,13 @@ class Normalizer:
 
     def __init__(self, raw_block: tuple, keep_identity: bool = True):
         self.rounds: list = []
-        block = _ret_peephole(raw_block)
+        block = _if_convert(_ret_peephole(raw_block))
         defs = single_defs(block, keep_identity)
         for _ in range(6):
             if not defs:
                 break
             self.rounds.append(defs)
-            block = _drop_sets(deref(block, defs), set(defs))
+            block = _if_convert(_drop_sets(deref(block, defs), set(defs)))
             defs = single_defs(block, keep_identity)
         mapping: dict = {}
 
@@ -1567,6 +1575,51 @@ class Normalizer:
         for defs in self.rounds:
             s = deref(s, defs)
         return s if self.identity else Sigma(raw_subst=self.mapping).apply(s)
+
+
+def _if_convert(block: tuple) -> tuple:
+    """``if c: v = a  else: v = b``  ==  ``v = a if c else b`` (both arms only assign the same plain locals), and
+    ``v = d`` directly followed by ``if c: v = a``  ==  ``v = a if c else d``: the written form of a conditional value
+    is immaterial"""
+    def only_sets(arm):
+        return bool(arm) and all(isinstance(x, tuple) and len(x) == 3 and x[0] == "set" and isinstance(x[1], tuple) and x[1][:1] == ("v",) for x in arm)
+
+    def arm_env(arm):
+        env: dict = {}
+        for x in arm:
+            env[x[1]] = subst(x[2], env) if env else x[2]
+        return env
+    out: list = []
+    for st in block:
+        if isinstance(st, tuple) and st:
+            if st[0] == "if" and len(st) == 4:
+                st = ("if", st[1], _if_convert(st[2]), _if_convert(st[3]))
+                if only_sets(st[2]) and only_sets(st[3]):
+                    a, b = arm_env(st[2]), arm_env(st[3])
+                    if set(a) == set(b):
+                        for v in dict.fromkeys(x[1] for x in st[2]):
+                            out.append(("set", v, mk_ite(st[1], a[v], b[v])))
+                        continue
+                if only_sets(st[2]) and not st[3] and out:
+                    a = arm_env(st[2])
+                    k = len(a)
+                    prev = out[-k:] if k <= len(out) else []
+                    if len(prev) == k and only_sets(tuple(prev)) and {x[1] for x in prev} == set(a) and len({x[1] for x in prev}) == k \
+                            and not any(contains(st[1], x[1]) for x in prev):
+                        d = arm_env(tuple(prev))
+                        del out[-k:]
+                        for x in prev:
+                            v = x[1]
+                            out.append(("set", v, mk_ite(st[1], subst(a[v], d) if any(contains(a[v], w) for w in d) else a[v], d[v])))
+                        continue
+            elif st[0] == "for" and len(st) == 5:
+                st = ("for", st[1], st[2], _if_convert(st[3]), _if_convert(st[4]))
+            elif st[0] == "while" and len(st) == 4:
+                st = ("while", st[1], _if_convert(st[2]), _if_convert(st[3]))
+            elif st[0] == "with" and len(st) == 3:
+                st = ("with", st[1], _if_convert(st[2]))
+        out.append(st)
+    return tuple(out)
 
 
 def _ret_peephole(block: tuple) -> tuple:
